@@ -81,8 +81,12 @@ def run_lines(exe, lines, env=None, timeout=900, parse=True, raw=False, wrapper=
         # verdicts must not depend on where an input lies in memory: a deterministic half of all batches runs with the inputs at
         # offsets 0..15 from the allocator's alignment (drivers honour VERIF_ALIGN; see drv/common.h)
         env = build.san_env()
-        if lines and zlib.crc32(lines[0].encode("ascii", "replace")) & 1:
+        # a quarter of the batches has them in read-only pages that end right before an inaccessible page (VERIF_ALIGN=2)
+        h = zlib.crc32(lines[0].encode("ascii", "replace")) & 3 if lines else 0
+        if h == 1:
             env["VERIF_ALIGN"] = "1"
+        elif h == 3:
+            env["VERIF_ALIGN"] = "2"
     try:
         p = subprocess.run(cmd, input=data, stdout=subprocess.PIPE, stderr=subprocess.PIPE,
                            env=env or build.san_env(), timeout=timeout)
